@@ -248,7 +248,9 @@ var (
 	patNone  = inflowPat{"none", []sdk.Coins{cz(0, 0), cz(0, 0), cz(0, 0), cz(0, 0)}}
 	patSeven = inflowPat{"7/10/13", []sdk.Coins{cz(7, 0), cz(10, 0), cz(13, 0), cz(1, 0)}}
 	patMulti = inflowPat{"1000a+3b/101a/5b", []sdk.Coins{cz(1000, 3), cz(101, 0), cz(0, 5), cz(1, 1)}}
-	patOne   = inflowPat{"1/1/1", []sdk.Coins{cz(1, 0), cz(1, 0), cz(1, 0), cz(1, 0)}}
+	// only the first source receives anything: the sub-distributors fed by the others are idle in that block
+	patFirstOnly = inflowPat{"9/none/none", []sdk.Coins{cz(9, 0), cz(0, 0), cz(0, 0), cz(0, 0)}}
+	patOne       = inflowPat{"1/1/1", []sdk.Coins{cz(1, 0), cz(1, 0), cz(1, 0), cz(1, 0)}}
 )
 
 func applyInflow(w *harness.World, ctx sdk.Context, m *ref.DistModel, srcs []dacc, pat inflowPat) {
@@ -462,6 +464,11 @@ func distAlpha(thorough bool) distAlphabet {
 			a.shares = append(a.shares, []dshare{{d, "0.5"}})
 		}
 	}
+	// a share switched off (0) listed before one that is not
+	a.shares = append(a.shares, []dshare{{u2, "0"}, {aVRC, "0.3"}})
+	if thorough {
+		a.shares = append(a.shares, []dshare{{aMAIN, "0"}, {u2, "0.333333333333333333"}})
+	}
 	a.burns = []string{"0", "0.5"}
 	if thorough {
 		a.burns = []string{"0", "0.5", "0.01"}
@@ -670,10 +677,10 @@ func runDist(rc *RunCtx, prop string) {
 		cfgs = enumDistConfigs(rc.Thorough(), rc.Workers, &st)
 	}
 	rc.Logf("configurations: %d candidates, %d accepted by validation", st.candidates, st.accepted)
-	pats := []inflowPat{patSeven, patMulti, patNone}
+	pats := []inflowPat{patSeven, patMulti, patNone, patFirstOnly}
 	depth := 2
 	if rc.Thorough() {
-		pats = []inflowPat{patSeven, patMulti, patNone, patOne}
+		pats = []inflowPat{patSeven, patMulti, patNone, patFirstOnly, patOne}
 		depth = 3
 	}
 	genesis := harness.BuildGenesis(distGenesis())
